@@ -91,21 +91,31 @@ def run(repo, chk):
             exits = [c for c in ast.walk(h) if isinstance(c, ast.Call) and src(c.func) in ('hidc.error', 'sys.exit')]
             chk.expect(bool(ok or exits), 'C10.X4', f'main::except {src(h.type)} exit status',
                        'a failed compilation must end with a non-zero status', MAIN, h.lineno)
-        # order inside the try: CodeGen(...) precedes open(output, 'wb')
-        body_calls = [(c.lineno, c.col_offset, src(c.func)) for c in ast.walk(t) if isinstance(c, ast.Call)]
-        cg = [c for c in ast.walk(t) if isinstance(c, ast.Call) and src(c.func) == 'CodeGen']
-        op = [c for c in ast.walk(t) if isinstance(c, ast.Call) and src(c.func) == 'open']
-        ok = len(cg) == 1 and len(op) == 1
-        if ok:
-            # CodeGen(...) must be evaluated in a statement that precedes the `with open(...)` statement
-            def top_stmt(n):
-                while parent(n) is not t:
-                    n = parent(n)
-                return n
-            s_cg, s_op = top_stmt(cg[0]), top_stmt(op[0])
-            ok = t.body.index(s_cg) < t.body.index(s_op) and isinstance(s_op, ast.With)
-            ok = ok and src(op[0].args[1]) == "'wb'"
-        chk.expect(ok, 'C10.X4', 'main::output opened after code generation',
+        # on every path through main() the output file is opened (here or in a helper of __main__.py) only after
+        # CodeGen(...) - which generates eagerly and raises every CodeGenError - has completed
+        from .. import efg as _efg
+
+        def opens_output(call):
+            return src(call.func) == 'open' and len(call.args) >= 2 and isinstance(call.args[1], ast.Constant) and \
+                isinstance(call.args[1].value, str) and ('w' in call.args[1].value or 'a' in call.args[1].value or '+' in call.args[1].value)
+        openers = {name for name, fn in repo.functions(MAIN).items() if name != 'main'
+                   and any(isinstance(c, ast.Call) and opens_output(c) for c in ast.walk(fn))}
+        n_open = 0
+        bad = None
+        for pth in _efg.enumerate_paths(main, name='main'):
+            seen_cg = False
+            for e in pth.events:
+                if e.kind in ('call', 'silent', 'sub') and e.func == 'CodeGen':
+                    seen_cg = True
+                is_open = e.kind in ('call', 'silent', 'sub', 'enter') and isinstance(e.node, ast.AST) and any(
+                    isinstance(c, ast.Call) and (opens_output(c) or src(c.func) in openers) for c in ast.walk(e.node))
+                if is_open:
+                    n_open += 1
+                    if not seen_cg:
+                        bad = f'line {e.line}: the output is opened on a path where CodeGen(...) has not completed'
+                    break
+        chk.expect(bad is None and n_open > 0, 'C10.X4', 'main::output opened after code generation',
+                   bad or ('no path opens the output' if not n_open else '') or
                    'CodeGen(...) (which generates eagerly and raises every CodeGenError) must complete before the output '
                    'file is created, otherwise a failed compilation leaves an empty/partial file', MAIN)
         src_try = [x for x in trys if any(isinstance(c, ast.Call) and src(c.func) == 'SourceCode.from_file' for c in ast.walk(x))]
@@ -122,6 +132,7 @@ def run(repo, chk):
     # integer immediates are bounded before they are printed in decimal
     gf = GenFacts(repo)
     n_lit = 0
+    literal_arm_ok = _int_literal_arm(repo, chk, gf)
     for fname, fn in gf.methods.items():
         for n in ast.walk(fn):
             if isinstance(n, ast.Call) and src(n.func) == 'asm.IntLiteral' and n.args:
@@ -135,9 +146,9 @@ def run(repo, chk):
                 bounded = '& self.max_unsigned' in t or '& 255' in t or '& 0xFF' in t or t.startswith(('int(bool(', 'int(expr.data)')) \
                     or 'bool(' in t
                 if not bounded and isinstance(a, ast.Name):
-                    # `data` must have been range-reduced on the way
-                    txt = src(fn)
-                    bounded = 'data &= self.max_unsigned' in txt and 'self.max_unsigned <= data <= self.max_unsigned' in txt
+                    # a local holding the (reduced) literal value: decided by interpreting the IntValue arm of
+                    # eval_expr over boundary values at every word size (_int_literal_arm), wherever that code lives
+                    bounded = literal_arm_ok
                 chk.expect(bounded, 'C10.X4', f'{fname}::asm.IntLiteral({t[:40]})',
                            'a literal value taken from the program is printed in decimal when the assembly is written; it must '
                            'be reduced to the word range first (str() of an integer with more than 4300 digits raises ValueError '
@@ -249,26 +260,55 @@ def run(repo, chk):
                    f'{missing} (an InternalCompilerError would escape)', GEN)
         chk.count(f'{fn_name}_classes', len(concrete))
     chk.floor('expression classes instantiated', len([c for c in inst if 'Expression' in ancestors(c)]), 25)
-    # builtin dispatch
-    from ..consteval import Interp
-    it = Interp(repo)
+    # builtin dispatch: for every builtin stub (name, parameter types) no path of eval_func_call - or of a helper its code
+    # was moved to - that is feasible for that stub ends in a raise (every decision depending only on `name` /
+    # `abstract_params` is evaluated for the stub; the others are left open)
+    from ..consteval import Env
+    ns = gf.module_ns()
+    it = repo.__dict__['_gen_ns']['it']
     prog = it.load('hidc/ast/program.py')
-    stdlib = it.load('hidc/codegen/stdlib.py')
-    efc = src(gf.methods['eval_func_call'])
-    abstract = stdlib['abstract_funcs']
+    n_stub = 0
+    fns = ['eval_func_call'] + sorted(gf.fragments())
     for stub in prog['builtin_stubs']:
         nm = stub.name
-        inline = False
-        if nm.base_name == 'write' and stub.param_types == (prog['DataType'].BYTE,):
-            inline = "name == ast.Ident('write') and abstract_params == (DataType.BYTE,)" in efc
-        elif nm.base_name in ('writeln', 'sleep', 'debug', 'progress'):
-            inline = f"name == ast.Ident('{nm.base_name}')" in efc
-        elif nm.base_name in ('is_defeat', 'truth_is_defeat'):
-            inline = f"name == ast.Ident.defeat('{nm.base_name}')" in efc
-        in_lib = stub.param_types in abstract.get(nm, set())
-        chk.expect(inline or in_lib, 'C10.X2', f'builtin {nm}({", ".join(map(str, stub.param_types))})',
-                   'every builtin stub must be inlined by eval_func_call or implemented in the library (otherwise '
+        n_stub += 1
+        bad = None
+        n_feasible = 0
+        for fname in fns:
+            for pth in gf.paths(fname):
+                ev = pth.events
+                feasible = True
+                mentions = False
+                for idx, e in enumerate(ev):
+                    if e.kind != 'cond' or e.node is None:
+                        continue
+                    try:
+                        node = ast.parse(_efg.expand(ev, idx, e.node, keep=('name', 'abstract_params')), mode='eval').body
+                    except SyntaxError:
+                        continue
+                    names = {n.id for n in ast.walk(node) if isinstance(n, ast.Name)}
+                    if not names & {'name', 'abstract_params'} or 'self' in names or 'args' in names or \
+                            any(isinstance(n, (ast.Yield, ast.YieldFrom, ast.NamedExpr)) for n in ast.walk(node)):
+                        continue
+                    if not names - {'name', 'abstract_params'} <= set(ns) | set(dir(__import__('builtins'))):
+                        continue
+                    try:
+                        v = bool(it.eval(node, Env(ns, {'name': nm, 'abstract_params': stub.param_types})))
+                    except Exception:      # noqa: BLE001
+                        continue
+                    mentions = True
+                    if v != e.truth:
+                        feasible = False
+                        break
+                if feasible and mentions:
+                    n_feasible += 1
+                    if pth.outcome == 'raise':
+                        r = [e for e in ev if e.kind == 'raise']
+                        bad = f'{fname}: a path feasible for this builtin ends in `{r[-1].text[:80] if r else "raise"}`'
+        chk.expect(bad is None and n_feasible > 0, 'C10.X2', f'builtin {nm}({", ".join(map(str, stub.param_types))})',
+                   bad or 'every builtin stub must be inlined by eval_func_call or implemented in the library (otherwise '
                    '"Unimplemented stdlib function" escapes)', GEN)
+    chk.floor('builtin stubs', n_stub, 10)
     # writeln(x) delegates to write(x): every writeln signature with arguments has a write twin
     wl = {s.param_types for s in prog['builtin_stubs'] if s.name.base_name == 'writeln' and s.param_types}
     wr = {s.param_types for s in prog['builtin_stubs'] if s.name.base_name == 'write'}
@@ -319,9 +359,39 @@ def run(repo, chk):
     chk.expect('span' not in fields and not any(isinstance(n, (ast.Assign, ast.FunctionDef)) and 'span' in src(n)[:20] for n in bs.body),
                'C10.X5', 'BuiltinStub has no span', 'Environment.add_funcs uses hasattr(prev_def, "span") to decide whether the earlier '
                'definition can be shown; a builtin stub has no source position', 'hidc/ast/program.py')
-    t = '\n'.join(src(m) for m in repo.methods(ERRORS, 'CompilerError').values())
-    chk.expect('isinstance(context, Span) or isinstance(context, Cursor)' in t and 'self.context = tuple(context)' in t and
-               'source.lines[line]' in t, 'C10.X5', 'CompilerError.get_info', 'context normalised to a tuple of spans; rendering indexes source lines', ERRORS)
+    # CompilerError, interpreted: every accepted context shape (span, cursor, tuple of spans / cursors, ()) is normalised to
+    # a tuple, and get_info renders it - message, position of the last entry, one quoted source line per entry - without
+    # raising
+    bad = None
+    try:
+        _err = _it.load(ERRORS)
+        _scan = _it.load('hidc/lexer/scanner.py')
+        SC = _scan['SourceCode']
+        source = SC('prog.hid', ['first line', 'second line here', '', 'fourth'])
+        Sp, Cu = _lex['Span'], _lex['Cursor']
+        shapes = [('span', Sp(Cu(1, 2), Cu(1, 5)), 1), ('cursor', Cu(3, 0), 1), ('tuple of spans', (Sp(Cu(0, 0), Cu(0, 3)), Sp(Cu(1, 7), Cu(1, 9))), 2),
+                  ('list of spans', [Sp(Cu(0, 1), Cu(0, 2))], 1), ('empty', (), 0), ('end of line', Cu(0, 10), 1), ('empty line', Cu(2, 0), 1)]
+        for label, ctx, n_entries in shapes:
+            err = _err['CompilerError']('boom', ctx)
+            if not isinstance(err.context, tuple) or len(err.context) != n_entries:
+                bad = f'context {label} is stored as {err.context!r}'
+                break
+            text = err.get_info(source)
+            if not isinstance(text, str) or 'boom' not in text or 'prog.hid' not in text:
+                bad = f'context {label}: rendered {text!r}'
+                break
+            for c in err.context:
+                ln = c.start.line
+                if source.lines[ln] and source.lines[ln] not in text:
+                    bad = f'context {label}: source line {ln + 1} is not quoted in {text!r}'
+            if n_entries and f'{err.context[-1].start}' not in text.split('\n')[0]:
+                bad = f'context {label}: position {err.context[-1].start} missing from the head line {text.splitlines()[0]!r}'
+            if bad:
+                break
+    except Exception as e:      # noqa: BLE001
+        bad = f'{type(e).__name__}: {e}'
+    chk.expect(bad is None, 'C10.X5', 'CompilerError.get_info', bad or 'context normalised to a tuple; every shape renders with its source lines',
+               ERRORS)
     # positions: the union of spans/cursors covers both and stays inside them (diagnostics point into the source)
     Span, Cursor = _lex['Span'], _lex['Cursor']
     pts = [Cursor(0, 0), Cursor(0, 5), Cursor(1, 2), Cursor(3, 0)]
@@ -348,6 +418,40 @@ def run(repo, chk):
     _labels_defined(repo, chk, gf)
     chk.not_decided = ['implicit exceptions outside the partial-builtin table', 'recursion depth (excluded by the property)',
                        'acceptance of the output by the real Sphinx assembler']
+
+
+def _int_literal_arm(repo, chk, gf):
+    """The IntValue arm of eval_expr, interpreted: for boundary values and values far beyond the word the emitted
+    immediate is congruent to the literal modulo 2^(8w) and small enough to be printed (|data| < 2^(8w))."""
+    ns = gf.module_ns()
+    it = repo.__dict__['_gen_ns']['it']
+    CG, astv, asmv = ns.get('CodeGen'), ns.get('ast'), ns.get('asm')
+    lex = it.load('hidc/lexer/__init__.py')
+    span = lex['Span'](lex['Cursor'](0, 0), lex['Cursor'](0, 1))
+    bad = None
+    n = 0
+    try:
+        for ws in (2, 3, 4, 8):
+            g = object.__new__(CG)
+            g.word_size = ws
+            g.stack = ns['StackPoint']()
+            M = 1 << (8 * ws)
+            for v in (0, 1, -1, 255, 256, M // 2 - 1, M // 2, -(M // 2), M - 1, M, -M, M + 7, -(M + 7), 3 * M - 2, 10 ** 30, -(10 ** 30),
+                      10 ** 5000, -(10 ** 5000) + 3):
+                res = g.eval_expr(asmv.LabelRef('r0'), astv.IntValue(v, span), False)
+                lit = res.value.value
+                n += 1
+                if getattr(res, 'items', None) or type(lit).__name__ != 'IntLiteral' or (lit.data - v) % M != 0 or not -M < lit.data < M:
+                    bad = f'word size {ws}: literal with {len(bin(abs(v))) - 2} bits gives {type(lit).__name__}' + \
+                          (f' of {len(bin(abs(lit.data))) - 2} bits' if hasattr(lit, 'data') else '') + \
+                          ' (must be congruent modulo 2^(8w) and below 2^(8w) in magnitude)'
+                    break
+            if bad:
+                break
+    except Exception as e:      # noqa: BLE001
+        bad = f'cannot interpret the IntValue arm of eval_expr: {type(e).__name__}: {str(e)[:120]}'
+    chk.expect(bad is None, 'C10.X4', 'eval_expr[IntValue]::immediate bounded and congruent', bad or f'{n} evaluations', GEN)
+    return bad is None
 
 
 def _option_order(repo, chk, cgc):
